@@ -129,6 +129,36 @@ CLAIMED = {
              "forced by a shared neighbour is sized by max(needed, original capacity class) for a symbolic class 1..=7.",
         note=COMMON_NOTE + "C = 8; retention windows > 0 and the literal 10^3..10^6-round histories are replaced by the induction (paper step).",
         technique="Kani/CBMC inductive round with allocator-event ledger stubs (SAT)", design="5 C18"),
+    "C15": dict(
+        text="Bounded model checking: the Debug output of Bytes/BytesMut, captured in a fixed-array fmt::Write sink and parsed back by an "
+             "independent byte-string-literal decoder written in the harness, equals the contents for ALL byte strings of length 0, 1, 2 and 3 "
+             "(every byte value symbolic, i.e. all 256 / 65536 / 2^24 strings, incl. every escape adjacency); {:x}/{:X} print exactly two digits "
+             "of the right case per byte in order (1-2 symbolic bytes); with serde, serialize hands serialize_bytes exactly the contents and "
+             "deserialize through visit_bytes / visit_byte_buf / visit_borrowed_bytes / visit_seq / visit_str / visit_string / visit_borrowed_str "
+             "returns equal contents (symbolic contents up to 3 bytes, concrete size hints None / exact / 0).",
+        note=COMMON_NOTE + "Strings longer than 3 bytes are outside (the formatter loop treats each byte independently - stated, not solver-checked); "
+             "serde is driven by a hand-written Deserializer/Serializer, real data formats are not encoded.",
+        technique="Kani/CBMC symbolic execution of core::fmt output + independent literal decoder (SAT)", design="5 C15"),
+    "C16": dict(
+        text="Decided by reduction over solver verdicts: (parity) every Vec-backed step harness runs under the built-in even-address allocator "
+             "and under odd-address allocator stubs against the same deterministic model; (cfg twin) ptr_map's two bodies compute the same integer "
+             "function for all addresses below 2^47 in both builds, plus the tag algebra; (profile) every arithmetic-overflow check and "
+             "debug_assert inside the crate is proved for all inputs of the step/out-of-contract families, so removing them cannot change a result, "
+             "and a sample of those families is re-run with -C debug-assertions=off; (features) a sample of the cursor/getter/putter/comparison "
+             "families is re-run with --no-default-features and with extra-platforms (portable-atomic) against the same models.",
+        note=COMMON_NOTE + "Release-profile EXECUTION is not available in Kani (overflow checks are always on); the reduction replaces it. "
+             "The re-run samples are selected by VERIF_SEED (all of them in the thorough tier).",
+        technique="reduction to Kani/CBMC verdicts across allocator parity, cfg twin, debug-assertion and feature-set builds (SAT)", design="5 C16"),
+    "C17": dict(
+        text="Bounded model checking with --prove-safety-only: a Buf whose remaining(), chunk() (any sub-slice of a real array, possibly empty) and "
+             "advance() (ignore or panic) return fresh symbolic answers on every call is handed to every consumer (typed getters of every width, "
+             "uint/int with symbolic nbytes, copy_to_slice, copy_to_bytes, chunks_vectored default/Chain/Take, Chain/Take advance, IntoIter, "
+             "Reader, default put with guard bytes, Vec::put, BytesMut::put); an AsRef owner answering differently or panicking per call through "
+             "from_owner + clone/slice/conversions; iterators with arbitrary size hints through extend/collect. All CBMC memory-safety checks "
+             "must hold for every schedule of lies within 4 loop iterations per consumer.",
+        note=COMMON_NOTE + "remaining() lies are drawn from 0..=12 and usize::MAX; loops are unwound 4 times without unwinding assertions (a liar may "
+             "loop a consumer forever); leak-freedom only on returning paths; unsafe trait BufMut implementors are out of the property's scope.",
+        technique="Kani/CBMC safety-only checking with fully nondeterministic trait implementations (SAT)", design="5 C17"),
 }
 
 NOT_YET = "check not built yet in this session (work in progress; see DESIGN.md section 5 for the planned solver encoding)"
